@@ -168,7 +168,7 @@ func c09Requests(p *Program, t *T) []c09Req {
 }
 
 func runC09(e *Env) {
-	e.Rule = "registration programs (as C04) whose handlers are armed by request headers: the panicking request designates one handler (any global/group/route middleware, main handler, custom NotFound/NotAllowed handler; before or after its Next()) or the OnError handler, a panic value (string, error, int, struct) and an action before the panic (nothing, SetStatus, body write = committed, AddError); OnPanic hook absent / does nothing / status only / status+body / echoes the recovered value; history = healthy requests, the panicking one, an overlapping pair (a second request served by the same router while the first is parked inside a handler) and 3..10 further requests of all kinds on the same router (same pooled contexts). Oracle: hook present => no escape, hook ran once with the same value under CTXRecoverResult, no handler entered after the panic, writer log == C08 state machine over (ops before the panic, hook ops, end of request); hook absent => the same value propagates; always: every later request's outcome equals the outcome on a freshly built twin router. Also the in-chain recover middleware pkg/handlers.PanicsHandler: no escape, 500, healthy afterwards. Non-trivial: every history (each contains a panic); distinct by (program, plan). A third of the hooks serve another request on the same router before they answer (it must get its own context and behave as on a twin); a quarter of the panicking requests carry a cancelled or expired request context. More than half of the routers have an OnError handler that answers with an error page (after a panic it must not run, whatever errors were collected before). A quarter of the routers put a middleware in front that replaces c.Resp by a pass-through writer and restores it after Next() without defer (the panic skips the restore; the next request on that context must not notice). Part behind-request-logger: pkg/handlers.ConsoleLogger first and a panic on one of its ignored paths (/health, /status): the logger must not act as a recovery middleware. Part panic-inside-a-render-helper: the value handed to c.JSON/JSONP/XML has an encoder that panics; the following responses of the same helper are unchanged. The hook keeps c.Data() and c.Copy() of the panicking request; after the history both still hold the recovered value."
+	e.Rule = "registration programs (as C04) whose handlers are armed by request headers: the panicking request designates one handler (any global/group/route middleware, main handler, custom NotFound/NotAllowed handler; before or after its Next()) or the OnError handler, a panic value (string, error, int, struct) and an action before the panic (nothing, SetStatus, body write = committed, AddError); OnPanic hook absent / does nothing / status only / status+body / echoes the recovered value; history = healthy requests, the panicking one, an overlapping pair (a second request served by the same router while the first is parked inside a handler) and 3..10 further requests of all kinds on the same router (same pooled contexts). Oracle: hook present => no escape, hook ran once with the same value under CTXRecoverResult, no handler entered after the panic, writer log == C08 state machine over (ops before the panic, hook ops, end of request); hook absent => the same value propagates; always: every later request's outcome equals the outcome on a freshly built twin router. Also the in-chain recover middleware pkg/handlers.PanicsHandler: no escape, 500, healthy afterwards. Non-trivial: every history (each contains a panic); distinct by (program, plan). A third of the hooks serve another request on the same router before they answer (it must get its own context and behave as on a twin); a quarter of the panicking requests carry a cancelled or expired request context. More than half of the routers have an OnError handler that answers with an error page (after a panic it must not run, whatever errors were collected before). A quarter of the routers put a middleware in front that replaces c.Resp by a pass-through writer and restores it after Next() without defer (the panic skips the restore; the next request on that context must not notice). Part behind-request-logger: pkg/handlers.ConsoleLogger first and a panic on one of its ignored paths (/health, /status): the logger must not act as a recovery middleware. Part panic-inside-a-render-helper: the value handed to c.JSON/JSONP/XML has an encoder that panics; the following responses of the same helper are unchanged. The hook keeps c.Data() and c.Copy() of the panicking request; after the history both still hold the recovered value. Part hook-status-sources: (a) a buffering middleware (status and body kept back in its own writer, handed on after Next() - which the panic skips) is in front and the hook answers with c.SetStatus(code) only: the committed status is the hook's; (b) a handler records a status outside 100..999 and writes, the underlying writer refuses the code by a panic as net/http does, the hook does not set a status: the panic still ends at the hook, once; follow-up requests unchanged in both."
 	e.Assumptions = []string{
 		"panic values are comparable (==)",
 		"the statement's 'no later handler runs' is checked for the OnPanic hook only; PanicsHandler lets the outer loop continue by design and is only checked for containment, status and router health",
@@ -179,6 +179,8 @@ func runC09(e *Env) {
 	e.Require("logger.checked", 250)
 	e.RunCases("panic-inside-a-render-helper", e.N(300, 5000), 0, c09RenderPanic)
 	e.Require("render_panic.checked", 250)
+	e.RunCases("hook-status-sources", e.N(400, 8000), 0, c09HookStatus)
+	e.Require("hook_status.checked", 300)
 	e.Require("redispatch_panic.checked", 1000)
 	e.Require("panic.in_global_mw", 200)
 	e.Require("panic.in_route_mw", 200)
@@ -390,6 +392,96 @@ func c09RenderPanic(t *T) {
 		}
 	}
 	t.NonTrivial(fmt.Sprint(helper, hook))
+}
+
+// c09HookStatus: where the status of the hook's answer comes from and goes to.
+func c09HookStatus(t *T) {
+	r := t.R
+	mode := pick(r, []string{"buffering-middleware", "invalid-status-code"})
+	code := pick(r, []int{500, 503, 418, 502})
+	bad := pick(r, []int{42, 99, 1000, 4040, 7})
+	pre := pick(r, []string{"", "status", "write"})
+	hookKind := pick(r, []string{"nothing", "body"})
+	t.Describe(func() any {
+		return map[string]any{"mode": mode, "hook_status": code, "invalid_code": bad, "before_panic": pre, "hook(invalid-status-code mode)": hookKind}
+	})
+	t.AutoSample()
+	router := rux.New()
+	router.OnPanic = func(c *rux.Context) {
+		recOf(c).Ev("hook")
+		if mode == "buffering-middleware" {
+			c.SetStatus(code)
+		} else if hookKind == "body" {
+			_, _ = c.Resp.Write([]byte("sorry"))
+		}
+	}
+	if mode == "buffering-middleware" {
+		router.Use(func(c *rux.Context) {
+			orig := c.Resp
+			buf := &c05Buffer{hdr: orig.Header()}
+			c.Resp = buf
+			c.Next()
+			c.Resp = orig
+			if buf.status > 0 {
+				orig.WriteHeader(buf.status)
+			}
+			if buf.body.Len() > 0 {
+				_, _ = orig.Write(buf.body.Bytes())
+			}
+		})
+	}
+	router.GET("/boom", func(c *rux.Context) {
+		recOf(c).Ev("enter(boom)")
+		if mode == "invalid-status-code" {
+			c.SetStatus(bad)
+			_, _ = c.Resp.Write([]byte("x")) // the underlying writer refuses the code
+			return
+		}
+		switch pre {
+		case "status":
+			c.SetStatus(201)
+		case "write":
+			_, _ = c.Resp.Write([]byte("half a page"))
+		}
+		panic("boom")
+	})
+	router.GET("/ok", func(c *rux.Context) { recOf(c).Ev("enter(ok)"); c.Text(200, "ok") })
+	serve := func(path string) (*Rec, any, bool) {
+		rec := NewRec()
+		rec.StrictCodes = true
+		req := NewReq("GET", path)
+		pv, escaped := catch(func() { router.ServeHTTP(rec, req) })
+		return rec, pv, escaped
+	}
+	base, _, bp := serve("/ok")
+	if bp {
+		t.Fail("servehttp-panic", "GET /ok panicked")
+		return
+	}
+	for round := 0; round < 3; round++ {
+		rec, pv, escaped := serve("/boom")
+		t.Count("hook_status.checked", 1)
+		hooks := 0
+		for _, ev := range rec.Events {
+			if ev == "hook" {
+				hooks++
+			}
+		}
+		if escaped || hooks != 1 {
+			t.Fail("panic-escaped-with-hook", "%s: a panic with an OnPanic hook installed: escaped=%v (%v), the hook ran %d times; events %v", mode, escaped, pv, hooks, rec.Events)
+			return
+		}
+		if mode == "buffering-middleware" && rec.Status() != code {
+			t.Fail("hook-status-not-committed", "a buffering middleware replaced c.Resp, a handler below it panicked (before the panic: %q), the hook answered c.SetStatus(%d): committed status %d; writer calls %s", pre, code, rec.Status(), rec.CallLog())
+			return
+		}
+		again, _, ap := serve("/ok")
+		if ap || again.Outcome() != base.Outcome() {
+			t.Fail("followup-differs", "%s: after the panic (round %d), GET /ok answers differently than before:\n before: %s\n after:  %s", mode, round, base.Outcome(), again.Outcome())
+			return
+		}
+	}
+	t.NonTrivial(fmt.Sprint(mode, code, bad, pre, hookKind))
 }
 
 // c09RedispatchPanic: the panicking chain was reached through an internal re-dispatch
